@@ -270,6 +270,15 @@ func startGatewayHealthCheck(e *EndpointInfo, interval time.Duration, ctx contex
 		for {
 			select {
 			case <-e.healthCheckCh:
+				if ctx.Err() != nil {
+					// select picks at random when a queued tick and the cancellation are both
+					// ready, so this health check may get a tick after the endpoint was disabled
+					// or removed: such an endpoint must not be probed any more.
+					// The tick is given back, it may have been sent by the health check that
+					// was started because the endpoint is enabled again.
+					e.TriggerHealthCheck()
+					return
+				}
 				e.healthCheckFun(e)
 			case <-ctx.Done():
 				return
